@@ -146,7 +146,7 @@ func cmdVerify(args []string) {
 		}
 	}
 	sort.Strings(keys)
-	cfg := solveCfg{outDir: filepath.Join(*verif, "out", "verify"), timeoutSec: *timeout, par: 16}
+	cfg := solveCfg{outDir: filepath.Join(*verif, "out", "verify"+os.Getenv("VERIF_OUT_SUFFIX")), timeoutSec: *timeout, par: 16}
 	t0 := time.Now()
 	res := e.verifyAll(keys, *prop, cfg, func(o *Oblig, c *Contract) bool {
 		if *prop == "" {
